@@ -89,7 +89,13 @@ Inductive ev :=
     (* the TUN read fails for good: the reader starts Device.Close and leaves, releasing what it holds *)
 | ENet (ds : list dgram)                   (* datagrams queued together on the bind *)
 | ESetNonce (j : N) (v : N)                (* hook: send counter of peer j's current keypair *)
-| EExpire (j : N).                         (* hook: peer j's keypairs become older than RejectAfterTime *)
+| EExpire (j : N)                          (* hook: peer j's keypairs become older than RejectAfterTime *)
+| EStraggle (j : N) (kin kout : N).
+    (* hook: what a receive routine / SendStagedPackets that passed the isRunning test just before Peer.Stop leaves
+       behind: a container of kin inbound elements on peer j's inbound queue and one of kout outbound elements on its
+       outbound queue, BEHIND the terminator Stop pushed (the peer is stopped).  Only the autodraining-queue flush of
+       Peer.Start or the queue finalisers (after the peer is garbage) give them back.  Handled by xstep below; the
+       core step ignores it. *)
 
 (* ------------------------------------------------------------ peers *)
 
@@ -412,6 +418,7 @@ Definition step_state (s : state) (e : ev) : state :=
           end
       | None => s
       end
+  | EStraggle _ _ _ => s
   | EExpire j =>
       match find_peer j (s_peers s) with
       | Some q => with_pa s (put_peer (set_keys q (age_slot (q_prev q)) (age_slot (q_cur q)) (age_slot (q_next q)))
@@ -432,3 +439,61 @@ Definition step (s : state) (e : ev) : state * vec :=
 Definition init (c : cfg) : state :=
   {| s_cfg := c; s_up := false; s_closed := false; s_peers := [];
      s_acc := {| a_get := vout (dev_batch c) 0; a_put := vzero |} |}.
+
+(* ------------------------------------------------------------ stragglers in the autodraining queues
+
+   The core model above is exact for everything that happens at quiescent points.  What can sit in a stopped peer's
+   autodraining inbound / outbound queue (behind Stop's terminator) is accounted for separately, with its own Get/Put
+   accumulators, so that the core accounting and its proofs stay as they are:
+     x_lost     what rests in the queues of peers that are still configured, by peer
+     x_garbage  what rests in the queues of peers that were removed (or of a closed device): only the finalisers
+                (runtime.GC) give it back. *)
+
+Record xstate := { x_s : state; x_lost : list (N * vec); x_garbage : vec; x_acc : acc }.
+
+Definition lsum (l : list (N * vec)) : vec := fold_right (fun x v => vadd (snd x) v) vzero l.
+Definition lost_of (j : N) (l : list (N * vec)) : vec := lsum (filter (fun x => fst x =? j) l).
+Definition lost_rm (j : N) (l : list (N * vec)) : list (N * vec) := filter (fun x => negb (fst x =? j)) l.
+
+Definition vstraggle (kin kout : N) : vec :=
+  vadd (vin kin (if kin =? 0 then 0 else 1)) (vout kout (if kout =? 0 then 0 else 1)).
+
+Definition xstep_state (x : xstate) (e : ev) : xstate :=
+  let s := x_s x in
+  let s1 := step_state s e in
+  if s_closed s then
+    match e with
+    | EGC => {| x_s := s1; x_lost := x_lost x; x_garbage := vzero; x_acc := put (x_garbage x) (x_acc x) |}
+    | _ => {| x_s := s1; x_lost := x_lost x; x_garbage := x_garbage x; x_acc := x_acc x |}
+    end
+  else
+  match e with
+  | EStraggle j kin kout =>
+      match find_peer j (s_peers s) with
+      | Some q =>
+          if q_run q then {| x_s := s1; x_lost := x_lost x; x_garbage := x_garbage x; x_acc := x_acc x |}
+          else {| x_s := s1; x_lost := (j, vstraggle kin kout) :: x_lost x; x_garbage := x_garbage x;
+                  x_acc := get (vstraggle kin kout) (x_acc x) |}
+      | None => {| x_s := s1; x_lost := x_lost x; x_garbage := x_garbage x; x_acc := x_acc x |}
+      end
+  | EUp =>
+      (* Peer.Start flushes both autodraining queues of every peer it starts *)
+      if s_up s then {| x_s := s1; x_lost := x_lost x; x_garbage := x_garbage x; x_acc := x_acc x |}
+      else {| x_s := s1; x_lost := []; x_garbage := x_garbage x; x_acc := put (lsum (x_lost x)) (x_acc x) |}
+  | ERemovePeer j =>
+      {| x_s := s1; x_lost := lost_rm j (x_lost x); x_garbage := vadd (x_garbage x) (lost_of j (x_lost x)); x_acc := x_acc x |}
+  | ERemoveAll | EClose | EFatalRead =>
+      {| x_s := s1; x_lost := []; x_garbage := vadd (x_garbage x) (lsum (x_lost x)); x_acc := x_acc x |}
+  | EGC => {| x_s := s1; x_lost := x_lost x; x_garbage := vzero; x_acc := put (x_garbage x) (x_acc x) |}
+  | _ => {| x_s := s1; x_lost := x_lost x; x_garbage := x_garbage x; x_acc := x_acc x |}
+  end.
+
+(* predicted VerifPoolCounts: core plus stragglers *)
+Definition xoutstanding (x : xstate) : vec :=
+  vsub (vadd (a_get (s_acc (x_s x))) (a_get (x_acc x))) (vadd (a_put (s_acc (x_s x))) (a_put (x_acc x))).
+
+Definition xstep (x : xstate) (e : ev) : xstate * vec :=
+  let x1 := xstep_state x e in (x1, xoutstanding x1).
+
+Definition xinit (c : cfg) : xstate :=
+  {| x_s := init c; x_lost := []; x_garbage := vzero; x_acc := {| a_get := vzero; a_put := vzero |} |}.
